@@ -23,6 +23,14 @@ CLAIMED = {
         ref="§5 C03"),
 }
 
+# per-property fragments written next to the harness module: harness/props/cxx.manifest.json
+# {"text": ..., "note": ..., "technique": ..., "ref": ...}
+for frag in sorted((ROOT / "harness" / "props").glob("c*.manifest.json")):
+    pid = frag.name.split(".")[0].upper()
+    d = json.loads(frag.read_text())
+    d["note"] = TB + d.get("note", "")
+    CLAIMED[pid] = d
+
 NOT_YET = "not yet built in this session; will be claimed once its model, theorems and correspondence check exist"
 
 
